@@ -74,6 +74,14 @@ func resolveResult(ret *ssa.Return, i int) ssa.Value {
 	if best != nil {
 		return best.Val
 	}
+	if len(stores) == 0 {
+		// a named result that is never assigned: its zero value
+		if pt, ok := al.Type().Underlying().(*types.Pointer); ok {
+			if !isBasic(pt.Elem()) {
+				return ssa.NewConst(nil, pt.Elem())
+			}
+		}
+	}
 	return v
 }
 
@@ -239,15 +247,21 @@ func (r *registerRule) OnInstr(e *Engine, st *State, fc *FrameCtx, in ssa.Instru
 			// arguments: (from, to) of this registration
 			if len(r.pc) > 2 {
 				sawFrom, sawTo := false, false
+				opaque := false // a name handed over in a form that cannot be traced (a struct field)
 				for _, a := range c.Args {
-					switch e.CanonS(fc, stripConv(a)) {
-					case r.pc[1]:
+					if !isBasicKind(a.Type(), types.String) {
+						continue
+					}
+					switch cv := e.CanonS(fc, stripConv(a)); {
+					case cv == r.pc[1]:
 						sawFrom = true
-					case r.pc[2]:
+					case cv == r.pc[2]:
 						sawTo = true
+					case !strings.HasPrefix(cv, "param:") && !strings.HasPrefix(cv, "const:"):
+						opaque = true
 					}
 				}
-				if !sawFrom || !sawTo {
+				if (!sawFrom || !sawTo) && !opaque {
 					e.Report(st, in.Pos(), "register/cycle-query-args", "the reachability query is not asked about (source, target) of this registration")
 				}
 			}
@@ -286,19 +300,30 @@ func checkRegister(c *Ctx, p *Prog, R *BusRoles, r1, r2 string) {
 	f := R.RegisterFn
 	// the cycle query: a static callee in the package returning bool that receives both names
 	var cycleFn *ssa.Function
-	for _, b := range f.Blocks {
-		for _, in := range b.Instrs {
-			if call, ok := in.(*ssa.Call); ok {
-				if sc := call.Common().StaticCallee(); sc != nil && PkgOf(sc) == PkgBus && sc.Signature.Results().Len() == 1 {
-					if bt, ok := sc.Signature.Results().At(0).Type().Underlying().(*types.Basic); ok && bt.Kind() == types.Bool {
-						takesGraph := false
-						for _, a := range call.Common().Args {
-							if _, ok := R.isUpMapLoad(a); ok {
-								takesGraph = true
+	scanFns := []*ssa.Function{f}
+	for _, g := range reachFuncs(p, f, PkgBus) { // then the helpers it calls under its lock
+		if g != f {
+			scanFns = append(scanFns, g)
+		}
+	}
+	for _, g := range scanFns {
+		if cycleFn != nil {
+			break // the query called by register itself (or by the nearest helper) wins
+		}
+		for _, b := range g.Blocks {
+			for _, in := range b.Instrs {
+				if call, ok := in.(*ssa.Call); ok {
+					if sc := call.Common().StaticCallee(); sc != nil && PkgOf(sc) == PkgBus && sc.Signature.Results().Len() == 1 {
+						if bt, ok := sc.Signature.Results().At(0).Type().Underlying().(*types.Basic); ok && bt.Kind() == types.Bool {
+							takesGraph := false
+							for _, a := range call.Common().Args {
+								if _, ok := R.isUpMapLoad(a); ok {
+									takesGraph = true
+								}
 							}
-						}
-						if readsUpMap(sc, R, 0) || takesGraph {
-							cycleFn = sc
+							if readsUpMap(sc, R, 0) || takesGraph {
+								cycleFn = sc
+							}
 						}
 					}
 				}
@@ -406,7 +431,17 @@ func checkUpMapWriters(c *Ctx, p *Prog, R *BusRoles, rule string) {
 				case *ssa.MapUpdate:
 					if _, ok := R.isUpMapLoad(x.Map); ok {
 						n++
-						if f == R.RegisterFn {
+						onlyFromRegister := false
+						if f != R.RegisterFn && f.Parent() == nil {
+							sites := newIPIndex(p).callers[f]
+							onlyFromRegister = len(sites) > 0
+							for _, cs := range sites {
+								if cs.Parent() != R.RegisterFn {
+									onlyFromRegister = false
+								}
+							}
+						}
+						if f == R.RegisterFn || onlyFromRegister {
 							c.Discharge(rule, construct+"/insert", p.Pos(in.Pos()), "the guarded insertion in register")
 						} else {
 							c.Violate(rule, construct+"/insert", p.Pos(in.Pos()), "an edge is added to the upcaster graph outside register: it bypasses validation and the cycle check", nil)
